@@ -147,6 +147,17 @@ func Solve(query, file string, timeoutS int, crossCheck bool, prefer string) *So
 			}
 			if !crossCheck || definitive >= 2 {
 				cancel()
+			} else if definitive == 1 {
+				// cross-check: the other back ends get a bounded grace period for a second opinion
+				// (three times what the first needed, at least 10 s), not the whole timeout
+				grace := time.Duration(3*a.dt*float64(time.Second)) + 10*time.Second
+				go func() {
+					select {
+					case <-time.After(grace):
+						cancel()
+					case <-ctx.Done():
+					}
+				}()
 			}
 			continue
 		}
